@@ -13,6 +13,11 @@
 //	     (counter-reset / set / increment, list items, display:none, pseudo-elements),
 //	     <ol start>, <li value>; observed through counters() in ::before / ::after and
 //	     through ::marker.
+//
+// and one family of sequences (seq.go): ordered pairs (definer, user) over a menu of
+// documents = rule sets x names used, rendered user, definer, user in one process through
+// layout.Layout; the user must print the same text both times (a counter's text depends on
+// the document's own styles and the predefined ones, not on an earlier document's).
 package c19
 
 import (
@@ -87,6 +92,24 @@ func (c *check) Init(tier string, seed int64) (sp engine.Space) {
 		describe: func(i int64) any { return map[string]any{"undefined-style-name": unknown[i]} }})
 	bounds["predefined_styles"] = len(names)
 	bounds["integers"] = intSetText(tier)
+
+	// --- sequences of renders in one process (seq.go) -----------------------------------------
+	sq := newSeqSpace()
+	c.segs = append(c.segs, &segment{name: "sequences", count: sq.count(), batch: 4,
+		run: func(i int64, ctx *engine.Ctx) {
+			d, u := sq.at(i)
+			c.runSeq(ctx, d, u)
+		},
+		describe: func(i int64) any {
+			d, u := sq.at(i)
+			return map[string]any{"order": "user, definer, user", "definer": d.label(), "user": u.label(), "definer_html": d.html(), "user_html": u.html()}
+		}})
+	var rn []string
+	for _, r := range sq.rules {
+		rn = append(rn, r.name)
+	}
+	bounds["sequences"] = map[string]any{"ordered_pairs": sq.count(), "documents": sq.docs(), "rule_sets": rn, "names_used": sq.uses, "values": seqValues,
+		"unit": "user alone (reference), definer, user again: three layouts in one process"}
 
 	// --- product of author styles ----------------------------------------------------------
 	p := newProduct(tier)
@@ -215,7 +238,7 @@ func (c *check) Init(tier string, seed int64) (sp engine.Space) {
 	}
 	return engine.Space{
 		Units: units, Chunk: 32, Level: "model_checking",
-		Rule:   "index-addressable product spaces, simplest first: predefined styles, product of author @counter-style rules, descriptor/function forms, fallback/extends graphs (node 0 rendered), HTML lists, element forests x per-element counter operations; every case is run on the real code and compared with the reference; a case is non-trivial when the reference produced text that was compared (always, except documents without any pseudo-element box)",
+		Rule:   "index-addressable product spaces, simplest first: predefined styles, sequences of three layouts in one process (user, definer, user) over all ordered pairs of a document menu (rule sets x name used), product of author @counter-style rules, descriptor/function forms, fallback/extends graphs (node 0 rendered), HTML lists, element forests x per-element counter operations; every case is run on the real code and compared with the reference; a case is non-trivial when the reference produced text that was compared (always, except documents without any pseudo-element box)",
 		Bounds: bounds,
 		Assumptions: []string{
 			"symbols are strings/identifiers (no images); grapheme clusters = code points for the symbols used (no combining marks)",
@@ -226,6 +249,7 @@ func (c *check) Init(tier string, seed int64) (sp engine.Space) {
 			"representations of more than 60 symbols (symbolic and additive systems) are implementation-defined by the specification (a limit with fallback is allowed): run for crashes, text not compared; above 20000 symbols not run at all, nor is a value run in an environment where a reachable symbolic/additive style could produce more than 5 000 000 symbols for it if its range were ignored (the implementation builds the whole string: a 2^31 counter value allocates gigabytes)",
 			"CSS numbers are float32 in the implementation's parser: integers beyond 2^24 in a style sheet are rounded, so the end-to-end documents stay below; the direct calls cover them",
 			"display:none <li> and the reversed attribute are outside the HTML-list family",
+			"sequences: two documents per process history are enumerated exhaustively (the user's own first rendering is part of the history); @counter-style rules are carried by <style> elements only (not by user style sheets or @import); renders are sequential, not concurrent (that is C15's subject)",
 		},
 	}
 }
